@@ -327,7 +327,7 @@ def observe_line(wd, load, cfg, tape, tag):
     _skool()
     from skoolkit import tap2sna
     out = os.path.join(wd, 'line_%s.z80' % tag)
-    args = ['-c', 'load=' + load, '-c', 'timeout=60']
+    args = ['-c', 'load=' + load, '-c', 'timeout=12']
     for k, v in cfg.items():
         args += ['-c', '%s=%s' % (k, v)]
     args += ['--start', str(LINE_SCAN), tape, out]
